@@ -16,10 +16,17 @@ func FlattenSpecs() []*spec.Spec {
 			spec.M("MultiWordPrefixed", spec.F("id", "string"), spec.Msg("home_address", "Addr").FlatP("home_"), spec.Msg("work_address", "Addr").FlatP("work_")),
 			spec.M("Nums", spec.F("big", "int64"), spec.F("small", "int32"), spec.F("ratio", "double"), spec.F("flag", "bool"), spec.F("raw", "bytes")),
 			spec.M("NumHolder", spec.F("id", "string"), spec.Msg("nums", "Nums").FlatP("n_")),
+			// prefix relations between siblings: one flatten prefix is a proper prefix of another (both declaration orders), a
+			// prefix that is a prefix of a plain sibling's name, and a prefixed child beside an unprefixed one
+			spec.M("Party", spec.F("name", "string"), spec.F("city", "string")),
+			spec.M("PrefixOfPrefix", spec.F("id", "string"), spec.Msg("ship", "Party").FlatP("ship_"), spec.Msg("ship_to", "Party").FlatP("ship_to_")),
+			spec.M("PrefixOfPrefixRev", spec.F("id", "string"), spec.Msg("ship_to", "Party").FlatP("ship_to_"), spec.Msg("ship", "Party").FlatP("ship_")),
+			spec.M("PrefixOfSibling", spec.F("id", "string"), spec.Msg("ship", "Party").FlatP("ship_"), spec.F("ship_date", "string"), spec.F("shipment_no", "int32")),
+			spec.M("PrefixedAndBare", spec.F("id", "string"), spec.Msg("from", "Party").FlatP("from_"), spec.Msg("at", "Contact").Flat()),
 			spec.M("Inner", spec.F("label", "string"), spec.Msg("deep", "Contact")),
 			spec.M("NestedChild", spec.F("id", "string"), spec.Msg("inner", "Inner").Flat()),
 		},
-		Services: []*spec.Service{EchoService("FlattenShapeService", "Lead", "Invoice", "MultiWord", "MultiWordPrefixed", "NumHolder", "NestedChild")},
+		Services: []*spec.Service{EchoService("FlattenShapeService", "Lead", "Invoice", "MultiWord", "MultiWordPrefixed", "NumHolder", "NestedChild", "PrefixOfPrefix", "PrefixOfPrefixRev", "PrefixOfSibling", "PrefixedAndBare")},
 	}
 	return []*spec.Spec{withCell(spec.One("flat_shapes", f), "flatten/unit=child_name_shapes", "extended", "valid", "codec")}
 }
